@@ -25,6 +25,34 @@ def pick {α : Type} (cmd env : Option α) (dflt : α) : α := (cmd <|> env).get
 def convS (fx : Fixes) (a : Str) : Int := (stringToInt fx a).getD 0
 def convT (fx : Fixes) (a : Str) : Int := (timeoutArg fx a).getD 0
 
+/-! ## what the tokens are -/
+
+/-- for every structured command line (a list of options, each with its argument if it takes one, all known
+    to the option string) written one word per option and argument and closed by `--`, getopt's answers are
+    exactly these options in command-line order, and the operands are what follows: `lastArg ch` below therefore
+    is "the argument of the last `-ch` on the command line" -/
+theorem getopt_render (os : Str) (opts : List OptW) (operands : List Str) (hwf : ∀ o ∈ opts, o.wf os) :
+    getopt os (render opts operands) = (opts.map OptW.tok, operands) := by
+  unfold getopt render
+  induction opts with
+  | nil => simp [getoptGo]
+  | cons o rest ih =>
+    have ho := hwf o (by simp)
+    have ih' := ih (fun x hx => hwf x (by simp [hx]))
+    obtain ⟨ch, arg⟩ := o
+    obtain ⟨hk, hne⟩ := ho
+    simp only at hk hne
+    cases arg with
+    | none =>
+      have h1 : (['-', ch] : Str) ≠ ['-', '-'] := by simp [hne]
+      simp only [List.flatMap_cons, OptW.words, List.cons_append, List.nil_append, getoptGo, h1, if_false,
+        cluster, hk, Option.isSome_none, ih', List.map_cons, OptW.tok]
+    | some a =>
+      have h1 : (['-', ch] : Str) ≠ ['-', '-'] := by simp [hne]
+      simp only [List.flatMap_cons, OptW.words, List.cons_append, List.nil_append, getoptGo, h1, if_false,
+        cluster, hk, Option.isSome_some, List.head?_cons, List.map_cons, OptW.tok, ne_eq, not_true_eq_false]
+      rw [ih']
+
 /-! ## precedence -/
 
 /-- PRECEDENCE (every variant of the code, every environment, every command line, every option order):
